@@ -52,7 +52,7 @@ example : zeroCrossings [0, 0, 1, -1, 0, 0] true 0 = [0, 1, 3, 4, 5] ∧ zeroCro
   decide +kernel
 
 /-- **C12.a** (second half): the `tol = 0` result is strictly ascending (hence duplicate-free). -/
-theorem zc_strict_ascending (v : List ℚ) (keepAdj : Bool) :
+theorem zc_strict_ascending (v : List ℚ) (hv : v ≠ []) (keepAdj : Bool) :
     (zeroCrossings v keepAdj 0).Pairwise (· < ·) := by
   rw [zeroCrossings_zero]; exact allZc_pairwise v keepAdj
 
@@ -208,5 +208,15 @@ example : ∃ r ∈ switchedPeaks [1, 2, -1, -3, -3] 0, SameExc [1, 2, -1, -3, -
       have ht : t = 1 ∨ t = 2 ∨ t = 3 := by simp at h1 h3; omega
       rcases hs with rfl | rfl | rfl <;> rcases ht with rfl | rfl | rfl <;>
         first | (exfalso; omega) | decide +kernel
+
+
+/-- C12.e, complement for constant series (not covered by C11.a/b): a non-zero constant series is a single
+excursion and reports exactly index `0`; the zero series has no excursion and reports `[0, 0]`
+(`peaks = [0, 0]`, two zero-valued groups) — as the Python code. -/
+theorem switched_const (c : ℚ) (n : ℕ) :
+    switchedPeaks (List.replicate (n+1) c) 0 = if c = 0 then [0, 0] else [0] :=
+  switchedPeaks_replicate c n
+
+example : switchedPeaks [3, 3, 3] 0 = [0] ∧ switchedPeaks [0, 0] 0 = [0, 0] := by decide +kernel
 
 end EqsigVerif.Props.C12
